@@ -1,12 +1,17 @@
 // c27gen: reads the Go AST of the package types/checker and prints, as the Coq file
 // Gen/C27_CheckerFields.v, the list of the fields of `type Checker struct` in declaration
-// order together with five syntactic facts about each of them:
+// order together with six syntactic facts about each of them:
 //
 //	f_saved        CheckSource copies the field into a local before it calls CheckProgram
 //	f_restored     the `if c.Errors.IsFailure() {...}` block of CheckSource assigns the field
 //	f_reset_before CheckSource assigns the field at top level before it calls CheckProgram
 //	f_assigned_cs  CheckSource assigns the field anywhere in its body
 //	f_assigned_cp  CheckProgram, or a *Checker method reachable from it, assigns the field
+//	f_reset_cp     the field is assigned UNCONDITIONALLY on every run of CheckProgram: by a statement
+//	               that is a direct child of the body of CheckProgram, or of the body of a *Checker
+//	               method that such a statement calls as `c.M(..)` (expression or assignment statement;
+//	               transitively). Statements nested in if/for/switch/func literals do not count; guard
+//	               clauses (`if c.IsHeader() { return }`) in front of the statement are ignored.
 //
 // "assigns F" means: `c.F = e`, `c.F op= e`, `c.F++`, or a call `c.F.SetXxx(..)`/`c.F.UnsetXxx(..)`.
 // In CheckSource a call `c.M(..)` to a *Checker method also counts for everything M assigns
@@ -162,6 +167,79 @@ func mentions(n ast.Node, recv string, out map[string]bool) {
 		}
 		return true
 	})
+}
+
+// topLevelCalls: *Checker methods called by the statement st itself (an expression statement
+// `c.M(..)` or an assignment/definition whose right-hand sides are `c.M(..)`), not by anything nested
+func topLevelCalls(st ast.Stmt, recv string) []string {
+	var r []string
+	add := func(e ast.Expr) {
+		if c, ok := e.(*ast.CallExpr); ok {
+			if name, ok := recvField(c.Fun, recv); ok {
+				if _, ok := methods[name]; ok {
+					r = append(r, name)
+				}
+			}
+		}
+	}
+	switch x := st.(type) {
+	case *ast.ExprStmt:
+		add(x.X)
+	case *ast.AssignStmt:
+		for _, e := range x.Rhs {
+			add(e)
+		}
+	}
+	return r
+}
+
+// topLevelAssigns: fields assigned by the statement st itself (st is an assignment, an inc/dec
+// or an expression statement `c.F.SetXxx(..)`); nothing nested counts
+func topLevelAssigns(st ast.Stmt, recv string, out map[string]bool) {
+	switch x := st.(type) {
+	case *ast.AssignStmt:
+		if x.Tok != token.DEFINE {
+			for _, l := range x.Lhs {
+				if f, ok := recvField(l, recv); ok {
+					out[f] = true
+				}
+			}
+		}
+	case *ast.IncDecStmt:
+		if f, ok := recvField(x.X, recv); ok {
+			out[f] = true
+		}
+	case *ast.ExprStmt:
+		if c, ok := x.X.(*ast.CallExpr); ok {
+			if s, ok := c.Fun.(*ast.SelectorExpr); ok {
+				if strings.HasPrefix(s.Sel.Name, "Set") || strings.HasPrefix(s.Sel.Name, "Unset") {
+					if f, ok := recvField(s.X, recv); ok {
+						out[f] = true
+					}
+				}
+			}
+		}
+	}
+}
+
+// unconditionalAssigns: see f_reset_cp in the header comment
+func unconditionalAssigns(root string, out map[string]bool) {
+	seen := map[string]bool{root: true}
+	work := []string{root}
+	for len(work) > 0 {
+		name := work[len(work)-1]
+		work = work[:len(work)-1]
+		m := methods[name]
+		for _, st := range m.decl.Body.List {
+			topLevelAssigns(st, m.recv, out)
+			for _, callee := range topLevelCalls(st, m.recv) {
+				if !seen[callee] {
+					seen[callee] = true
+					work = append(work, callee)
+				}
+			}
+		}
+	}
 }
 
 func hasSel(n ast.Node, name string) bool {
@@ -360,19 +438,21 @@ func main() {
 		}
 	}
 	_ = cp
+	resetCP := map[string]bool{}
+	unconditionalAssigns("CheckProgram", resetCP)
 
 	var b strings.Builder
 	fmt.Fprintf(&b, "(* GENERATED by harness/cmd/c27gen from %s/checker.go — do not edit *)\n", dir)
 	b.WriteString("From Coq Require Import String List Bool.\nImport ListNotations.\nOpen Scope string_scope.\n")
-	b.WriteString("Record field := mkField { f_name : string; f_saved : bool; f_restored : bool; f_reset_before : bool; f_assigned_cs : bool; f_assigned_cp : bool }.\n")
+	b.WriteString("Record field := mkField { f_name : string; f_saved : bool; f_restored : bool; f_reset_before : bool; f_assigned_cs : bool; f_assigned_cp : bool; f_reset_cp : bool }.\n")
 	b.WriteString("Definition gen_fields : list field := [\n")
 	for i, f := range fields {
 		sep := ";"
 		if i == len(fields)-1 {
 			sep = ""
 		}
-		fmt.Fprintf(&b, "  mkField \"%s\" %s %s %s %s %s%s\n", f,
-			coqBool(saved[f]), coqBool(restored[f]), coqBool(resetBefore[f]), coqBool(assignedCS[f]), coqBool(assignedCP[f]), sep)
+		fmt.Fprintf(&b, "  mkField \"%s\" %s %s %s %s %s %s%s\n", f,
+			coqBool(saved[f]), coqBool(restored[f]), coqBool(resetBefore[f]), coqBool(assignedCS[f]), coqBool(assignedCP[f]), coqBool(resetCP[f]), sep)
 	}
 	b.WriteString("].\n")
 	fmt.Fprintf(&b, "Definition gen_checksource_found : bool := %s.\n", coqBool(shapeOK))
